@@ -84,6 +84,7 @@ pub fn run(rep: &Report) -> i32 {
     let quick = rep.is_quick();
     let seen: Mutex<HashSet<u64>> = Mutex::new(HashSet::new());
     let fresh = |t: &str| seen.lock().unwrap().insert(crate::report::fxhash(t.as_bytes()));
+    let fresh = &fresh;
     // (1) the well-typed family
     let fams = c01::families(quick);
     let (jobs, fns, transitions, _) = c01::enumerate(&fams, None);
